@@ -6,7 +6,7 @@
 
 namespace viewsim {
 
-enum Kind : uint32_t { K_DYN_WRITE = 0, K_ELEM_WRITE = 1, K_DYN_ALIAS = 2, K_H_CREATE = 3, K_H_NOALIAS = 4, K_H_ASSIGN = 5, K_IDX_ALIAS = 6, K_MASK_ALIAS = 7, K_DIAG = 8, K_FIX_BASE = 16 };
+enum Kind : uint32_t { K_DYN_WRITE = 0, K_ELEM_WRITE = 1, K_DYN_ALIAS = 2, K_H_CREATE = 3, K_H_NOALIAS = 4, K_H_ASSIGN = 5, K_IDX_ALIAS = 6, K_MASK_ALIAS = 7, K_DIAG = 8, K_BAD_ELEM = 9, K_FIX_BASE = 16 };
 enum { NHANDLES = 3 };
 
 template <class T, size_t... D> struct Uni;
@@ -336,6 +336,30 @@ template <class T, size_t... D> struct Uni : UniverseBase {
         cx.info->nontrivial = memcmp(&expA[flat], &sA[flat], sizeof(T)) != 0 && SZ > 1;
         cx.info->sig = mix2((uint64_t)op, (uint64_t)((st.a[A_X] & ((1u << R) - 1)) + 100));
         finish(cx, o, "elem_write", &d, cx.info->desc);
+    }
+
+    // ---------------------------------------------------------------- fault inside a history: a buggy client hands scalar indexing an out-of-range
+    // coordinate (checks-on builds only; elsewhere the step is a no-op). Whatever the library does with it -- the C07 check judges whether it
+    // raises the promised error -- the history must go on undisturbed: A, the other tensors and all surrounding memory unchanged, no signal.
+    void bad_elem(const Step &st, StepCtx &cx) {
+        expA = sA; Outcome o;
+#if FASTOR_BOUNDS_CHECK
+        int ix[R]; for (int k = 0; k < R; ++k) ix[k] = (int)(st.a[A_D0 + k] % (uint32_t)dims[k]);
+        int ax = (int)(st.a[A_FORM] % (uint32_t)R), over = 1 + (int)(st.a[A_X] % 3);
+        ix[ax] = (st.a[A_RHS] & 2) ? dims[ax] + over - 1 : -dims[ax] - over;
+        T sc = smallval<T>(st.a[A_VAL]); bool wr = st.a[A_RHS] & 1; T rd = 0;
+        Ten &a = *A;
+        o = window([&] { if (wr) elem(a, ix, std_ext::make_index_sequence<(size_t)R>{}) = sc; else rd = elem(a, ix, std_ext::make_index_sequence<(size_t)R>{}); }, false);
+        if (cx.cnt) { cx.cnt->bump("fault/bad-index-delivered-inside-history"); if (o.kind == 2) cx.cnt->bump("probe/bad-index-exception-observed"); }
+        if (o.kind == 2) o.kind = 0;          // the promised error: the operation is over, the history continues
+        o.allocs = 0;                         // (the exception object's own allocation is outside every property)
+        snprintf(cx.info->desc, sizeof cx.info->desc, "A(bad index on axis %d) %s", ax, wr ? "write" : "read");
+        cx.info->nontrivial = true;
+#else
+        snprintf(cx.info->desc, sizeof cx.info->desc, "bad index (no-op: runtime checks are off in this build)");
+#endif
+        cx.info->sig = mix2(0xbad, (uint64_t)(st.a[A_RHS] & 3));
+        finish(cx, o, "bad_elem", nullptr, cx.info->desc);
     }
 
     // ---------------------------------------------------------------- aliasing model helpers (C18)
